@@ -44,7 +44,20 @@ theorem C15_expand_recursive (env : Env) (a : Args) (fs : Fs) (p : Path) (hr : a
   obtain ⟨d, hd, hpd⟩ := hp
   split at hpd
   · simp only [List.mem_cons, List.not_mem_nil, or_false] at hpd; exact .inl (hpd ▸ hd)
-  · exact .inr ⟨d, hd, hpd⟩
+  · split at hpd
+    · cases hpd
+    · exact .inr ⟨d, hd, hpd⟩
+
+/-- With `--recursive` a named symbolic link that does not lead to a regular file — a link to a
+    directory, inside or outside the project, or a dangling one — contributes nothing: the
+    directory behind it is not walked. -/
+theorem C15_expand_skips_directory_links (env : Env) (a : Args) (fs : Fs) (p : Path) (hr : a.recursive = true)
+    (hlinks : ∀ d ∈ a.paths, Fs.isLink fs d = true ∧ Fs.isFile fs d = false) : p ∉ expand env a fs := by
+  intro hp
+  unfold expand at hp
+  simp only [hr, if_true, List.mem_flatMap] at hp
+  obtain ⟨d, hd, hpd⟩ := hp
+  simp only [(hlinks d hd).1, (hlinks d hd).2, Bool.false_eq_true, if_false, if_true, List.not_mem_nil] at hpd
 
 /-- `convert-dep5` either refuses (status 2, nothing changed) or does exactly this: `REUSE.toml`,
     which did not exist, now holds the rendered conversion, `.reuse/dep5` is gone, every other path
